@@ -10,8 +10,13 @@ RULE = ("builder scenarios: TCP flow ops, UDP flow/unicast/broadcast(srcip)/DNS 
 
 
 def project(raw):
-    # the part of a frame C02 is about: everything after the outer Ethernet header
-    return (lambda f: f) if raw else (lambda f: f[14:])
+    # the part of a frame C02 is about: the outer IPv4 header, and (for tunnels, whose inner headers are
+    # also C02's business) everything after it when the datagram carries GRE or a VXLAN-looking UDP payload
+    def pj(f):
+        d = f if raw else f[14:]
+        tunnel = len(d) > 9 and (d[9] == 47 or (d[9] == 17 and d[28:32] == bytes([8, 0, 0, 0])))
+        return d if tunnel else d[:20]
+    return pj
 
 
 def campaign(c):
